@@ -234,7 +234,7 @@ pub fn run(eng: &Engine) {
     eng.set_rule("compressor histories: 1..6 frames through one reused FrameCompressor (levels Uncompressed/Fastest switched per frame) or the one-shot compress_to_vec, inputs from the data generator (incl. the boundary-seeking family that sits on the raw-fallback decision), sources fragmented by generated read patterns (1-byte reads, reads ending on block boundaries, Read::take); every frame decoded by libzstd (checksum verified) and by this crate's decode_all and StreamingDecoder; non-trivial = non-empty input whose frame contains a Compressed block; distinct by hash of the emitted frames; evaluations count frames");
     eng.assume("levels Default/Better/Best are documented unimplemented and not part of 'every implemented level'");
     let tier = eng.tier;
-    let n = eng.tier.pick(2_500, 60_000);
+    let n = eng.tier.pick(20_000, 300_000);
     eng.run_stage("histories", n, || case_strategy(tier), check);
 }
 
